@@ -85,7 +85,7 @@ for pid, (mods, suites) in SPEC.items():
     if pid == "C08":
         # the same operation file replayed on the store-level model of level_swap / set_var_order
         # (ids, per-level tables, reference counts; `dump` directly after `order` is predicted)
-        streams.append({"name": "bdd-c08-store", "bin": "bf", "proto": "reorder-store", "gen": {"quick": ["--kind", "bdd", "--suite", "c08", "--dump-after-order", "1"], "thorough": ["--kind", "bdd", "--suite", "c08", "--dump-after-order", "1"]}, "run_args": ["--kind", "bdd"]})
+        streams.append({"name": "bdd-c08-store", "bin": "bf", "proto": "reorder-store", "gen": {"quick": ["--kind", "bdd", "--suite", "c08", "--dump-after-order", "1"], "thorough": ["--kind", "bdd", "--suite", "c08", "--dump-after-order", "1", "--tier", "quick", "--scale", "3"]}, "run_args": ["--kind", "bdd"]})
         streams += [kf("kf-zbdd-reorder", "zbdd"), kf("kf-reorder-oom", "bdd")]
     if pid == "C14":
         streams += [kf("kf-reorder-oom", "bdd"), kf("kf-zbdd-addvars-oom", "zbdd")]
